@@ -53,6 +53,7 @@ var c06LongRunRe = regexp.MustCompile(`x{1000,}`)
 // machine cannot reach by accident.  (Uint32SliceDelete used to block forever on a live key; since
 // the repair of that deadlock it is drawn as often as any other request and has the same limit.
 // If the deadlock comes back, every such request costs the full limit and is reported.)
+// (both go through HxScale: /verif/check re-runs a case whose reply was `hang` alone with longer limits)
 const c06OpTimeout = 60 * time.Second
 const c06SlowTimeout = 60 * time.Second
 
@@ -64,6 +65,7 @@ type c06State struct {
 	swamp   string
 	base    int64 // unix ns; client-side relative times are base+offset
 	server  map[int64]bool
+	sorted   bool    // case attribute sorted=1: claim replies are listed by key (their order is C30's subject)
 	opStarts []int64 // wall-clock start of every request of the case (not wait / close / restart / compact)
 	dead    bool // a request hung in this case
 	rigDead bool
@@ -251,6 +253,12 @@ func (s *c06State) kvp(item string) *hydrapb.KeyValuePair {
 		f = append(f, "")
 	}
 	kv := &hydrapb.KeyValuePair{Key: f[0]}
+	// `V~v`: the typed value V sent together with VoidVal = true (as the SDK does for a typed zero): V is what is stored
+	if strings.HasSuffix(f[1], "~v") {
+		f[1] = strings.TrimSuffix(f[1], "~v")
+		t := true
+		kv.VoidVal = &t
+	}
 	ty, val, _ := strings.Cut(f[1], ":")
 	switch ty {
 	case "i8":
@@ -526,6 +534,96 @@ func (s *c06State) exec(f []string) string {
 		out := []string{"get"}
 		for _, t := range resp.Swamps[0].Treasures {
 			out = append(out, s.rec(t))
+		}
+		return strings.Join(out, " ")
+	case "mcount":
+		// one Count over (this swamp, a swamp never created, this swamp): answers in request order
+		ghost := sw + "-never"
+		names := []string{sw, ghost, sw}
+		req := &hydrapb.CountRequest{}
+		for _, n := range names {
+			req.Swamps = append(req.Swamps, &hydrapb.CountRequest_SwampIdentifier{IslandID: island, SwampName: n})
+		}
+		resp, err := gw.Count(ctx, c06Wire(req, &hydrapb.CountRequest{}))
+		if err != nil {
+			return c06Err(err)
+		}
+		if resp == nil {
+			return "nilnil"
+		}
+		resp = c06Wire(resp, &hydrapb.CountResponse{})
+		out := []string{"mcount"}
+		for i, c := range resp.Swamps {
+			if i > 0 {
+				out = append(out, "/")
+			}
+			if i >= len(names) || c.SwampName != names[i] {
+				out = append(out, "?name")
+			}
+			if !c.IsExist {
+				out = append(out, "-")
+			} else {
+				out = append(out, strconv.Itoa(int(c.Count)))
+			}
+		}
+		return strings.Join(out, " ")
+	case "mdel":
+		// one Delete over (a swamp never created, this swamp): the missing swamp is an entry, the next one is still served
+		ghost := sw + "-never"
+		req := &hydrapb.DeleteRequest{Swamps: []*hydrapb.DeleteRequest_SwampKeys{{IslandID: island, SwampName: ghost, Keys: f[1:]},
+			{IslandID: island, SwampName: sw, Keys: f[1:]}}}
+		resp, err := gw.Delete(ctx, c06Wire(req, &hydrapb.DeleteRequest{}))
+		if err != nil {
+			return c06Err(err)
+		}
+		if resp == nil {
+			return "nilnil"
+		}
+		resp = c06Wire(resp, &hydrapb.DeleteResponse{})
+		out := []string{"mdel"}
+		for i, r := range resp.Responses {
+			if i > 0 {
+				out = append(out, "/")
+			}
+			if r.ErrorCode != nil {
+				out = append(out, "ERR:"+r.ErrorCode.String())
+				continue
+			}
+			for _, ks := range r.KeyStatuses {
+				out = append(out, c06Status(ks.Status))
+			}
+		}
+		return strings.Join(out, " ")
+	case "mset":
+		// one Set that names this swamp twice with the same items: the second entry meets what the first one stored
+		req := &hydrapb.SetRequest{}
+		for n := 0; n < 2; n++ {
+			sr := &hydrapb.SwampRequest{IslandID: island, SwampName: sw, CreateIfNotExist: f[1][0] == '1', Overwrite: f[1][1] == '1'}
+			for _, it := range f[2:] {
+				sr.KeyValues = append(sr.KeyValues, s.kvp(it))
+			}
+			req.Swamps = append(req.Swamps, sr)
+		}
+		resp, err := gw.Set(ctx, c06Wire(req, &hydrapb.SetRequest{}))
+		if err != nil {
+			return c06Err(err)
+		}
+		if resp == nil {
+			return "nilnil"
+		}
+		resp = c06Wire(resp, &hydrapb.SetResponse{})
+		out := []string{"mset"}
+		for i, r := range resp.Swamps {
+			if i > 0 {
+				out = append(out, "/")
+			}
+			if r.ErrorCode != nil {
+				out = append(out, "ERR:"+r.ErrorCode.String())
+				continue
+			}
+			for _, ks := range r.KeysAndStatuses {
+				out = append(out, c06Status(ks.Status))
+			}
 		}
 		return strings.Join(out, " ")
 	case "mget":
@@ -925,7 +1023,7 @@ func c06Run(in *bufio.Scanner, w *bufio.Writer) {
 			go func() { s.rig.Zeus.StopHydra(); close(done) }()
 			select {
 			case <-done:
-			case <-time.After(15 * time.Second):
+			case <-time.After(HxScale(15 * time.Second)):
 			}
 		}
 		for _, r := range roots {
@@ -941,10 +1039,13 @@ func c06Run(in *bufio.Scanner, w *bufio.Writer) {
 				continue
 			}
 			roots = append(roots, s.rig.Root)
-			s.caseNo, s.kind, s.dead = f[1], "mem", false
+			s.caseNo, s.kind, s.dead, s.sorted = f[1], "mem", false, false
 			for _, a := range f[2:] {
 				if k, v, ok := strings.Cut(a, "="); ok && k == "kind" {
 					s.kind = v
+				}
+				if a == "sorted=1" {
+					s.sorted = true
 				}
 			}
 			s.swamp = name.New().Sanctuary(c06Sanctuary(s.kind)).Realm("r" + s.runTag).Swamp("c" + s.caseNo).Get()
@@ -963,6 +1064,17 @@ func c06Run(in *bufio.Scanner, w *bufio.Writer) {
 			continue
 		}
 		switch f[0] {
+		case "within":
+			// real-time bracket: everything up to here happened less than MS ms after the case base (the
+			// model answers ok; a slow machine answers `hang slow`, and the case is re-run alone)
+			ms, _ := strconv.Atoi(f[1])
+			if time.Now().UnixNano()-s.base < int64(ms)*int64(time.Millisecond) {
+				fmt.Fprintln(w, "ok")
+			} else {
+				fmt.Fprintln(w, "hang slow")
+				s.dead = true
+			}
+			continue
 		case "wait":
 			ms, _ := strconv.Atoi(f[1])
 			time.Sleep(time.Duration(ms) * time.Millisecond)
@@ -992,7 +1104,7 @@ func c06Run(in *bufio.Scanner, w *bufio.Writer) {
 				select {
 				case <-done:
 					fmt.Fprintln(w, "ok")
-				case <-time.After(c06SlowTimeout):
+				case <-time.After(HxScale(c06SlowTimeout)):
 					fmt.Fprintln(w, "hang")
 					s.dead, s.rigDead = true, true
 				}
@@ -1000,7 +1112,7 @@ func c06Run(in *bufio.Scanner, w *bufio.Writer) {
 			continue
 		case "closeidle":
 			// idle eviction through the real close listener (1 s idle timeout + 1 s gap)
-			deadline := time.Now().Add(30 * time.Second)
+			deadline := time.Now().Add(HxScale(30 * time.Second))
 			closed := false
 			for time.Now().Before(deadline) {
 				live := false
@@ -1018,7 +1130,9 @@ func c06Run(in *bufio.Scanner, w *bufio.Writer) {
 			if closed {
 				fmt.Fprintln(w, "ok")
 			} else {
-				fmt.Fprintln(w, "noclose")
+				// timing-shaped: reported as a hang so that the case is re-run alone before it is believed
+				fmt.Fprintln(w, "hang noclose")
+				s.dead, s.rigDead = true, true
 			}
 			continue
 		case "restart":
@@ -1040,7 +1154,7 @@ func c06Run(in *bufio.Scanner, w *bufio.Writer) {
 					s.rig = n
 					fmt.Fprintln(w, "ok")
 				}
-			case <-time.After(20 * time.Second):
+			case <-time.After(HxScale(20 * time.Second)):
 				fmt.Fprintln(w, "hang")
 				s.dead, s.rigDead = true, true
 			}
@@ -1068,8 +1182,13 @@ func c06Run(in *bufio.Scanner, w *bufio.Writer) {
 		select {
 		case r := <-res:
 			r = c06LongRunRe.ReplaceAllStringFunc(r, func(m string) string { return "x@" + strconv.Itoa(len(m)) })
+			if s.sorted && (f[0] == "shiftexp" || f[0] == "patchexp") && strings.HasPrefix(r, f[0]+" ") {
+				items := strings.Split(r, " ")
+				sort.Strings(items[1:])
+				r = strings.Join(items, " ")
+			}
 			fmt.Fprintln(w, r)
-		case <-time.After(c06TimeoutOf(f[0])):
+		case <-time.After(HxScale(c06TimeoutOf(f[0]))):
 			fmt.Fprintln(w, "hang")
 			s.dead, s.rigDead = true, true
 		}
@@ -1169,15 +1288,26 @@ func c06F32Bits(f float32) uint32 {
 	return math.Float32bits(f)
 }
 
+// values for Set hold neither a NaN nor -0.0: the setters decide "same value" with the float comparison (a NaN
+// differs from itself: UPDATED for the same bits; -0.0 equals +0.0: NOTHING_CHANGED and the old sign stays), where
+// the model compares bit patterns.  Both reach a record through Increment steps and conditions only.
+func c06SetF64(rng *rand.Rand) float64 {
+	for {
+		if f := c06Pick(rng, c06F64s); f == f && !(f == 0 && math.Signbit(f)) {
+			return f
+		}
+	}
+}
+
 func c06Value(rng *rand.Rand) string {
 	switch rng.Intn(16) {
 	case 0, 1, 2, 3, 4:
 		ty := c06Pick(rng, c06IntTys)
 		return ty + ":" + c06IntVal(rng, ty)
 	case 5:
-		return fmt.Sprintf("f64:%016x", c06F64Bits(c06Pick(rng, c06F64s)))
+		return fmt.Sprintf("f64:%016x", c06F64Bits(c06SetF64(rng)))
 	case 6:
-		return fmt.Sprintf("f32:%08x", c06F32Bits(float32(c06Pick(rng, c06F64s))))
+		return fmt.Sprintf("f32:%08x", c06F32Bits(float32(c06SetF64(rng))))
 	case 7, 8:
 		return "str:" + hex.EncodeToString([]byte(c06Pick(rng, []string{"", "", "a", "hello", "0"})))
 	case 9:
@@ -1210,11 +1340,20 @@ func c06Time(rng *rand.Rand) string {
 	return "b7200000000000"
 }
 
+// a value token; one typed value in eight is sent with VoidVal set as well
+func c06ItemValue(rng *rand.Rand) string {
+	v := c06Value(rng)
+	if v != "void" && v != "none" && rng.Intn(8) == 0 {
+		return v + "~v"
+	}
+	return v
+}
+
 func c06Item(rng *rand.Rand, key string, meta bool) string {
 	if !meta {
-		return key + "|" + c06Value(rng) + "|||||"
+		return key + "|" + c06ItemValue(rng) + "|||||"
 	}
-	return strings.Join([]string{key, c06Value(rng), c06Time(rng), c06Pick(rng, c06Users), c06Time(rng), c06Pick(rng, c06Users), c06Time(rng)}, "|")
+	return strings.Join([]string{key, c06ItemValue(rng), c06Time(rng), c06Pick(rng, c06Users), c06Time(rng), c06Pick(rng, c06Users), c06Time(rng)}, "|")
 }
 
 func c06SomeKeys(rng *rand.Rand, max int) []string {
@@ -1253,6 +1392,19 @@ func c06IncOp(rng *rand.Rand, key string) string {
 			by = c06Pick(rng, []string{"1", "1", "2", "5", "100", "0", "255"})
 		}
 		cv = c06Pick(rng, []string{"0", "0", "1", "2", "5", "10", "100"})
+		// the ends of the type's range and the sign boundary, as steps and as condition operands
+		if rng.Intn(4) == 0 {
+			cv = c06IntVal(rng, ty)
+			if !signed && rng.Intn(2) == 0 {
+				_, _, _, bits := c06IntRange(ty)
+				cv = strconv.FormatUint(uint64(1)<<(bits-1)+uint64(rng.Intn(2)), 10) // 2^(bits-1), 2^(bits-1)+1
+			}
+		}
+		if rng.Intn(6) == 0 {
+			if b := c06IntVal(rng, ty); b != "0" {
+				by = b
+			}
+		}
 		// Int8/Int16/Uint8/Uint16 travel in 32-bit fields: arguments outside the width of the request
 		// (the handlers cast them), among them steps that are zero only after the cast
 		if _, _, _, bits := c06IntRange(ty); bits <= 16 && rng.Intn(4) == 0 {
@@ -1294,6 +1446,19 @@ func c06RandOp(rng *rand.Rand, meta bool) string {
 	case r < 32:
 		return "get " + strings.Join(c06SomeKeys(rng, 3), " ")
 	case r < 34:
+		switch rng.Intn(4) {
+		case 0:
+			return "mcount"
+		case 1:
+			return "mdel " + strings.Join(c06SomeKeys(rng, 3), " ")
+		case 2:
+			co := c06Pick(rng, []string{"11", "11", "10", "01", "00"})
+			var items []string
+			for _, k := range c06SomeKeys(rng, 2) {
+				items = append(items, c06Item(rng, k, meta && rng.Intn(3) == 0))
+			}
+			return "mset " + co + " " + strings.Join(items, " ")
+		}
 		return "mget " + strings.Join(c06SomeKeys(rng, 3), " ")
 	case r < 38:
 		return "getall"
@@ -1332,6 +1497,11 @@ type c06CorpusCase struct {
 }
 
 var c06Corpus = []c06CorpusCase{
+	// conditions on stored values beyond the sign bit of their width (an unsigned comparison through a signed cast fails here)
+	{[]string{"mem"}, []string{"set 11 k0|u64:9223372036854775809||||| k1|u32:2147483649||||| k2|u16:32769||||| k3|u8:129||||| k4|i64:-9223372036854775808|||||",
+		"inc u64 k0 1 gt:5 - -", "inc u64 k0 1 lt:5 - -", "inc u64 k0 1 ge:9223372036854775808 - -", "inc u64 k0 1 le:9223372036854775807 - -",
+		"inc u32 k1 1 gt:5 - -", "inc u32 k1 1 lt:2147483648 - -", "inc u16 k2 1 gt:5 - -", "inc u8 k3 1 gt:5 - -", "inc u8 k3 1 le:127 - -",
+		"inc i64 k4 -1 lt:0 - -", "inc i64 k4 1 gt:0 - -", "getall"}},
 	// keys the file cannot hold (empty, 65536 bytes) are refused by every request that could create a record;
 	// the longest storable key (65535 bytes) is an ordinary key
 	{[]string{"mem", "p1"}, []string{"set 11 k0|i64:1||||| |i64:2|||||", "issw", "inc i64 x@65536 1 - - -", "push :1", "push k1:1 x@70000:2", "issw",
